@@ -8,6 +8,7 @@ import (
 	"os/exec"
 	"path/filepath"
 	"sort"
+	"strconv"
 	"strings"
 	"sync/atomic"
 	"time"
@@ -445,6 +446,25 @@ func probeOp(w []string) string {
 		return probeDiskpackedUndo()
 	case "enumall":
 		return probeEnumAll()
+	case "filessweep":
+		if len(w) != 3 {
+			return "bad-op"
+		}
+		n, err := strconv.Atoi(w[2])
+		if err != nil || n < 0 || n > 1<<20 {
+			return "bad-op"
+		}
+		return probeFilesSweep(n)
+	case "dpsweep":
+		if len(w) != 4 {
+			return "bad-op"
+		}
+		n, err1 := strconv.Atoi(w[2])
+		m, err2 := strconv.Atoi(w[3])
+		if err1 != nil || err2 != nil || n < 0 || n > 1<<20 || m < 0 {
+			return "bad-op"
+		}
+		return probeDiskpackedSweep(n, m)
 	}
 	return "bad-op"
 }
